@@ -307,8 +307,16 @@ func (r *Run) Finish(minNontrivial int) int {
 	if r.Only == "" {
 		b, _ := json.MarshalIndent(ev, "", " ")
 		os.MkdirAll(filepath.Join(VerifDir, "evidence"), 0o755)
-		if err := os.WriteFile(filepath.Join(VerifDir, "evidence", r.ID+".json"), b, 0o644); err != nil {
+		// written under another name and renamed: a reader (or a concurrent run) never sees half a file
+		dst := filepath.Join(VerifDir, "evidence", r.ID+".json")
+		tmp := fmt.Sprintf("%s.%d.tmp", dst, os.Getpid())
+		err := os.WriteFile(tmp, b, 0o644)
+		if err == nil {
+			err = os.Rename(tmp, dst)
+		}
+		if err != nil {
 			fmt.Fprintf(os.Stderr, "cannot write evidence: %v\n", err)
+			os.Remove(tmp)
 			code = 3
 		}
 	}
